@@ -5,6 +5,7 @@
    `bin/mkprops.py`, then kept as source).  What is proved and what is partial: DESIGN.md §4. -/
 import Peppi.RollbacksProof
 import Peppi.RollbacksUnique
+import Peppi.RollbacksReverse
 set_option linter.unusedVariables false
 namespace Peppi.Props.C15
 
@@ -55,5 +56,10 @@ theorem C15_last_unique (ids : List Int) (h : ∀ x ∈ ids, FIRST_INDEX ≤ x) 
 theorem C15_last_nodup (ids : List Int) (h : ∀ x ∈ ids, FIRST_INDEX ≤ x) (hnd : ids.Nodup) :
     ∃ m, rollbacks .exceptLast ids = .ok m ∧ m.length = ids.length ∧ ∀ b ∈ m, b = false :=
   _root_.Peppi.C15_last_nodup ids h hnd
+
+/- from `Peppi.RollbacksReverse` -/
+theorem C15_modes_mirror (ids : List Int) (h : ∀ x ∈ ids, FIRST_INDEX ≤ x) :
+    ∃ m1 m2, rollbacks .exceptLast ids = .ok m1 ∧ rollbacks .exceptFirst ids.reverse = .ok m2 ∧ m1 = m2.reverse :=
+  _root_.Peppi.C15_modes_mirror ids h
 
 end Peppi.Props.C15
